@@ -156,7 +156,7 @@ class Replayer:
     """
 
     def __init__(self, kind, weighted, n, family="ident", seed=0, full=True, cc=False,
-                 copies=False, queries=True, plan=None, exhaustive_derive=True, query_prob=0.8):
+                 copies=False, queries=True, plan=None, exhaustive_derive=True, query_prob=0.8, late=False):
         self.kind, self.weighted, self.n = kind, weighted, n
         self.rng = random.Random(seed)
         self.b = Binding(kind, LABEL_FAMILIES[family](n), self.rng)
@@ -168,6 +168,10 @@ class Replayer:
         # the query block is skipped after some calls: a query can repair (or fill) a cache, and a fault
         # that needs two mutations without a query in between would otherwise never show
         self.query_prob = query_prob
+        # "late" traces: no query and no pure/derived call until the last call of the history, then everything
+        # (a cache that a query would refresh stays stale through several mutations)
+        self.late = late
+        self._final = False
         self.objs = {}
         self.events = []
         self.skipped = 0
@@ -181,7 +185,9 @@ class Replayer:
         if more:
             ev.update(more)
         want = self.queries if queries is None else queries
-        if want and (op["op"] in ("new", "copy") or self.rng.random() < self.query_prob):
+        if self.late and not self._final:
+            want = False
+        if want and (self._final or op["op"] in ("new", "copy") or self.rng.random() < self.query_prob):
             ev["q"] = self.b.queries(self.objs[oid], self.universe, full=self.full, cc=self.cc)
         self.events.append(ev)
         return ev
@@ -208,6 +214,10 @@ class Replayer:
         os.makedirs(self.scratch, exist_ok=True)
         rng = self.rng
         p = self.plan
+        if self.late:
+            if not self._final:
+                return
+            p = {k: ((v[0], 1.0) if isinstance(v, tuple) else 1.0) for k, v in p.items() if k != "filter"}
         if "filter" in p and rng.random() < p["filter"]:
             ev = D.filter_call(self, oid)
             if ev is not None:
@@ -223,10 +233,23 @@ class Replayer:
             if ev.get("_obj") is not None and rng.random() < 0.35:
                 self.objs[oid] = ev["_obj"]
                 self._log(oid, {"op": "adopt"}, True, queries=False)
+                # second generation: change one weight (or re-insert a hyperedge) on the loaded object and
+                # round-trip again at once
+                st = self.b.state(self.objs[oid])
+                if st["edges"] and -1 not in st["edges"][0]["k"]["s"]:
+                    k = rng.choice(st["edges"])["k"]
+                    op2 = ({"op": "set_weight", "k": k, "w": rng.randint(2, 5)} if st["wtd"] else
+                           {"op": "add_edge", "k": k, "w": 0, "hasmd": True, "md": {"b": "1"}, "bad": ""})
+                    if self.call(oid, op2) is not None:
+                        ev2 = D.saveload_event(self, oid, binary=False)
+                        more2 = {"loaded": ev2["loaded"]} if "loaded" in ev2 else None
+                        self._log(oid, ev2["op"], ev2["ok"], queries=False, more=more2)
         if "hash" in p and rng.random() < p["hash"]:
             ev = D.hash_event(self, oid)
             # digests are only comparable under one label map: tag them with the family
             more = {"digest": self.family + ":" + ev["digest"], "lab": self.family} if "digest" in ev else None
+            if more and "digest_reordered" in ev:
+                more["digest_reordered"] = self.family + ":" + ev["digest_reordered"]
             self._log(oid, ev["op"], ev["ok"], queries=False, more=more)
 
     def run_twins(self, ops):
@@ -254,8 +277,15 @@ class Replayer:
             oid = 0
             if 1 in self.objs and self.rng.random() < 0.5:
                 oid = 1
+            self._final = (i == len(ops) - 1)
             if self.call(oid, op) is not None:
                 self.extras(oid)
+        if self.late and not self._final and self.events:
+            # the last call was skipped (unsupported / corner): observe now
+            self._final = True
+            oid = self.events[-1]["obj"]
+            self._log(oid, {"op": "observe"}, True)
+            self.extras(oid)
         return self.events
 
 
@@ -264,9 +294,10 @@ def _replay_chunk(args):
     out = []
     for (ops, fam, sd) in items:
         r = Replayer(kind, weighted, n, fam, seed=sd, full=full, cc=cc, copies=copies,
-                     queries=queries, plan=plan, exhaustive_derive=exhaustive_derive)
+                     queries=queries, plan=plan, exhaustive_derive=exhaustive_derive, late=(sd % 4 == 3))
         tr = r.run(ops)
-        out.append((tr, {"family": fam, "seed": sd, "labels": r.b.labels, "skipped": r.skipped, "ops": ops}))
+        out.append((tr, {"family": fam, "seed": sd, "labels": r.b.labels, "skipped": r.skipped, "ops": ops,
+                         "late": r.late}))
     return out
 
 
